@@ -61,6 +61,8 @@ RULESETS = {
               ("r3", 45, 21, ["and", [c03.ID_A, c03.ID_B]], [], None)],
     "separate": [("r1", 6, 3, c03.ID_A, [], None)],
     "spread": [("r1", 3, 9, c03.ID_A, [], None), ("r2", 3, 9, c03.ID_B, [], None)],
+    # hits but no protocluster anywhere: the two profiles never come within the cutoff of each other
+    "unmet": [("r1", 3, 3, ["and", [c03.ID_A, c03.ID_B]], [], None)],
 }
 HITS = {
     "single": {"g0": {"a": 7}, "g1": {"a": 7}},
@@ -68,6 +70,7 @@ HITS = {
     "mixed": {"g0": {"a": 7, "b": 7}, "g1": {"b": 7}, "g2": {"a": 7}},
     "separate": {"g0": {"a": 7}, "g2": {"a": 7}},
     "spread": {"g0": {"a": 7}, "g1": {"a": 7}, "g2": {"b": 7}, "g3": {"a": 7}},
+    "unmet": {"g0": {"a": 7}, "g1": {"b": 7}},
 }
 TOOL = Tool("side tool", "1.0", "a sideloading tool", {"conf": ["x", "y"]})
 
@@ -159,6 +162,12 @@ def build_record(spec):
             # long values without a space to wrap at (a URL, a SMILES string, a sequence)
             subs.append(SubRegionAnnotation(6, 141, "x" * 130, TOOL, {"url": ["http://example.org/" + "a" * 90], "list": [",".join(["abcdefghij"] * 12)]},
                                             circular_origin=wrap))
+        if sideload == "origin-protos" and circular:
+            # sideloaded protoclusters around the origin: only the neighbourhood crosses it (either side), the core crosses it
+            protos.append(ProtoclusterAnnotation(204, 234, "nbright", TOOL, {}, 9, 12, circular_origin=wrap))
+            protos.append(ProtoclusterAnnotation(9, 39, "nbleft", TOOL, {"k": ["v"]}, 15, 3, circular_origin=wrap))
+            protos.append(ProtoclusterAnnotation(228, 18, "coreover", TOOL, {}, 6, 3, circular_origin=wrap))
+            protos.append(ProtoclusterAnnotation(102, 120, "elsewhere", TOOL, {}, 3, 30, circular_origin=wrap))
         if sideload == "origin-subs" and circular:
             # a pre-origin, an origin-spanning and a post-origin subregion chained into one region, and one elsewhere
             subs.append(SubRegionAnnotation(150, 212, "before", TOOL, {}, circular_origin=wrap))
@@ -300,9 +309,9 @@ def specs(tier):
             if layout in CIRCULAR_ONLY and not circ:
                 continue
             for rules in (None, "single", "twins", "mixed", "separate", "spread"):
-                for sideload in (None, "sub", "proto", "both", "twin-sub", "two-subs", "origin-sub", "origin-subs", "value-shapes",
-                                 "unbreakable-values"):
-                    if sideload in ("origin-sub", "origin-subs") and not circ:
+                for sideload in (None, "sub", "proto", "both", "twin-sub", "two-subs", "origin-sub", "origin-subs", "origin-protos",
+                                 "value-shapes", "unbreakable-values"):
+                    if sideload in ("origin-sub", "origin-subs", "origin-protos") and not circ:
                         continue
                     if sideload in ("value-shapes", "unbreakable-values") and (rules is not None or layout not in ("plain", "origin")):
                         continue
@@ -311,7 +320,7 @@ def specs(tier):
                     for extras in extra_sets:
                         if tier == "quick" and len(extras) > 0 and (rules, sideload) not in (("mixed", None), ("twins", "both"), ("single", "sub"),
                                                                                                  (None, "both"), ("separate", "origin-sub"), (None, "two-subs"),
-                                                                                                 ("spread", None), ("spread", "origin-subs")):
+                                                                                                 ("spread", None), ("spread", "origin-subs"), (None, "origin-protos")):
                             continue
                         out.append({"circ": circ, "layout": layout, "rules": rules, "sideload": sideload, "extras": extras})
     return out
